@@ -81,7 +81,7 @@ def _batch(args):
 CHUNK_HEAD = b"POST /p HTTP/1.1\r\nHost: h\r\nTransfer-Encoding: chunked\r\n\r\n"
 CHUNK_ALPHA = [b"0", b"5", b"a", b"g", b";", b"=", b'"', b"\\", b"\r", b"\n", b" ", b"\t", b"x", b"+"]
 HEAD_LINE = b"POST /p HTTP/1.1\r\n"
-HEAD_ALPHA = [b"A", b":", b" ", b"\t", b"\r", b"\n", b"5", b",", b"_", b"-", b"\x0b", b"Content-Length", b"Transfer-Encoding", b"chunked"]
+HEAD_ALPHA = [b"A", b":", b" ", b"\t", b"\r", b"\n", b"5", b",", b"_", b"-", b"\x0b", b"\xe9", b"Content-Length", b"Transfer-Encoding", b"chunked"]
 PROBE = b"\r\n\r\n" + oracle.SENTINEL
 
 
